@@ -411,7 +411,9 @@ class Visitor:
         property_function = self.get_base_property(decorators, function)
 
         if overload:
-            self.current.overloads[function.name].append(function)
+            # Only modules and classes keep track of overloads.
+            if self.current.kind in {Kind.MODULE, Kind.CLASS}:
+                self.current.overloads[function.name].append(function)
         elif property_function:
             base_property: Attribute = self.current.members[node.name]  # type: ignore[assignment]
             if property_function == "setter":
